@@ -42,9 +42,31 @@ pub fn convention(mut p: Parameters, sign_pattern: usize, offset_class: &str, r:
     p.offsets = match offset_class {
         "zero" => [0.0; 6],
         "quarter" => std::array::from_fn(|_| (r.gen_range(-2..=2) as f64) * std::f64::consts::FRAC_PI_2),
-        _ => std::array::from_fn(|_| r.gen_range(-3.0..3.0)),
+        // arbitrary offsets: mostly inside a half turn, one set in four well beyond it (up to a bit more than a turn)
+        _ => { let span = if r.gen_bool(0.25) { 7.0 } else { 3.0 }; std::array::from_fn(|_| r.gen_range(-span..span)) }
     };
     p
+}
+
+/// A second robot that shares part of the description of `p`: every geometric parameter is kept or
+/// re-drawn with equal probability (one in three siblings keeps the whole geometry), the sign/offset
+/// convention is re-drawn. Used to interleave calls of related robots on one thread.
+pub fn sibling(p: &Parameters, r: &mut StdRng) -> Parameters {
+    let fresh = geometry(GEOMETRY_CLASSES[r.gen_range(0..GEOMETRY_CLASSES.len())], r);
+    let mut s = *p;
+    if !r.gen_bool(0.34) {
+        if r.gen_bool(0.5) { s.a1 = fresh.a1; }
+        if r.gen_bool(0.5) { s.a2 = fresh.a2; }
+        if r.gen_bool(0.5) { s.b = fresh.b; }
+        if r.gen_bool(0.5) { s.c1 = fresh.c1; }
+        if r.gen_bool(0.5) { s.c2 = fresh.c2; }
+        if r.gen_bool(0.5) { s.c3 = fresh.c3; }
+        if r.gen_bool(0.5) { s.c4 = fresh.c4; }
+    }
+    let keep6 = (s.sign_corrections[5], s.offsets[5]);
+    s = convention(s, r.gen_range(0..64), ["zero", "quarter", "random"][r.gen_range(0..3)], r);
+    if p.dof == 5 { s.sign_corrections[5] = keep6.0; s.offsets[5] = keep6.1; }
+    s
 }
 
 pub fn named_robots() -> Vec<(&'static str, Parameters)> {
